@@ -865,7 +865,7 @@ class Builder(object):
                     index += 1
 
                 elif connective == 'per':
-                    data, index = self.parseDirect(tokens, index)
+                    data, index = self.parseDirect(tokens, index, stops=('rx', 'tx'))
                     init.update(data)
 
                 elif connective == 'for':
@@ -3986,8 +3986,11 @@ class Builder(object):
 
     #----------------------------
 
-    def parseDirect(self, tokens, index):
+    def parseDirect(self, tokens, index, stops=()):
         """Parse Direct data address
+           stops is tuple of clause keywords of the calling verb that are not
+           reserved words but end the data like a reserved word does
+
            returns ordered dictionary of fields (keys) and values
            if no field provided then uses default field = 'value'
 
@@ -4014,9 +4017,10 @@ class Builder(object):
 
         """
         data = odict()
+        reserved = Reserved + list(stops)  # ending tokens for this command
         if index == (len(tokens) - 1): #only one more token so it must be value
             value = tokens[index]
-            if value in Reserved:  # ending token not valid value
+            if value in reserved:  # ending token not valid value
                 msg = "ParseError: Encountered reserved '{0}' instead of value.".format(value)
                 raise excepting.ParseError(msg, tokens, index)
             index +=1 #eat token
@@ -4024,12 +4028,12 @@ class Builder(object):
 
         else: #more than one so first may be field and second token may be value
             field = tokens[index]
-            if field in Reserved:  # ending token not valid field
+            if field in reserved:  # ending token not valid field
                 msg = "ParseError: Encountered reserved '{0}' instead of field.".format(field)
                 raise excepting.ParseError(msg, tokens, index)
             index += 1
             value = tokens[index]
-            if value in Reserved: #second reserved token so first token was value
+            if value in reserved: #second reserved token so first token was value
                 value = field
                 field = 'value' #default field
             else: #first token was field and second value
@@ -4041,14 +4045,14 @@ class Builder(object):
         #parse rest if any
         while index < len(tokens): #must be in pairs unless first is ending token
             field = tokens[index]
-            if field in Reserved: #ending token so break
+            if field in reserved: #ending token so break
                 break
 
             field = StripQuotes(field)
             index += 1 #eat token
 
             value = tokens[index]
-            if value in Reserved:  # ending token before valid value
+            if value in reserved:  # ending token before valid value
                 msg = "ParseError: Encountered reserved '{0}' instead of value.".format(value)
                 raise excepting.ParseError(msg, tokens, index)
             index += 1
